@@ -103,12 +103,29 @@ _WRAP = ["bash", "-c", "ulimit -v 12000000; exec \"$@\"", "--"]
 
 
 def _run(cmd, timeout, cwd=None):
+    """run a tool in its own process group so that a timeout also stops external solvers spawned by cbmc"""
+    import signal
     t0 = time.time()
+    p = subprocess.Popen(_WRAP + cmd, stdout=subprocess.PIPE, stderr=subprocess.STDOUT, universal_newlines=True, cwd=cwd,
+                         start_new_session=True)
     try:
-        p = subprocess.run(_WRAP + cmd, stdout=subprocess.PIPE, stderr=subprocess.STDOUT, universal_newlines=True, timeout=timeout, cwd=cwd)
-        return p.returncode, p.stdout, time.time() - t0
-    except subprocess.TimeoutExpired as e:
-        return -9, (e.stdout or "") if isinstance(e.stdout, str) else "", time.time() - t0
+        out, _ = p.communicate(timeout=timeout)
+        return p.returncode, out, time.time() - t0
+    except subprocess.TimeoutExpired:
+        try:
+            os.killpg(p.pid, signal.SIGKILL)
+        except OSError:
+            pass
+        try:
+            p.communicate(timeout=10)
+        except Exception:
+            pass
+        return -9, "", time.time() - t0
+    finally:
+        try:
+            os.killpg(p.pid, signal.SIGKILL)   # no stragglers (external SMT solver children)
+        except OSError:
+            pass
 
 
 CVC5_INT = os.path.join(VERIF, "tools", "cvc5int.sh")
